@@ -132,6 +132,7 @@ func runC12(r *Run) {
 		}
 	}
 	redisFaultSweep(r, "[C12]", nil)
+	busyStorePatterns(r, [][2]time.Duration{{10 * time.Second, 4 * time.Second}, {30 * time.Second, 10 * time.Second}, {10 * time.Second, 0}, {3 * time.Second, 3 * time.Second}})
 	concurrentMemoryStore(r)
 	r.Finish("every Redis store method with every single (and random multiple) command-level fault, applied or not, from five prior states x four timeout pairs: result, command trace and raw server state compared with the command-level model; store histories: every operation sequence up to the stated length over {settok x2, gettok, setauth, getauth, clear, remove} x 2 ids + tick (exhaustive, memory and Redis/miniredis, Redis operations routed to two store instances), plus random histories of 5-60 operations over 3 ids with ticks around the limits, timeouts on and off, and values outside the input guard; " +
 		"each line is executed on the real store and on the Lean store model, and judged by the Go reference map; non-trivial = at least one read returned data, distinct by the whole history")
@@ -155,8 +156,38 @@ func runC10(r *Run) {
 			}
 		}
 	}
-	// directed: a session kept busy - touched (read, or written again) a little more often than the idle limit asks for -
-	// until well past the absolute limit, which alone must end it
+	busyStorePatterns(r, pairs)
+	n := 800
+	if r.thorough() {
+		n = 30000
+	}
+	for i := 0; i < n; i++ {
+		for _, kind := range []string{"mem", "redis"} {
+			p := pick(r.Rng, pairs)
+			sc := scenario{Kind: kind, Abs: p[0], Idle: p[1], Ops: randomStoreSeq(r, 5+r.Rng.Intn(40), ticks, false)}
+			runScenario(r, sc, func(storeOp) bool { return true })
+			if i < 2 {
+				r.Sample(sc)
+			}
+		}
+	}
+	redisFaultSweep(r, "[C10]", nil)
+	// handler level: a session whose TOKENS are refreshed at every request does not get a new lifetime
+	for _, store := range []string{"mem", "redis"} {
+		if r.unknownViolations() == 0 {
+			busySessionR(r, store, 300*time.Second, 100*time.Second, 60*time.Second, true)
+			busySessionR(r, store, 300*time.Second, 0, 60*time.Second, true)
+		}
+	}
+	systemLevelTimeouts(r)
+	r.Finish("store histories with (absolute, idle) in {0,3s,4s,10s,30s} pairs: directed write/wait/read/wait/read/write/wait/read patterns with waits on either side of every limit incl. the exact boundary and 1ns around it, plus random histories; memory store and Redis store (miniredis with the same virtual clock); " +
+		"judged by the Go reference (never honoured late; not dropped inside both limits, 1s allowance for Redis) and compared line by line with the Lean store models; the system-level part builds the stores through the real NewSessionStoreFactory(cfg).PreRun(); non-trivial = a read returned data, distinct by history")
+}
+
+// busyStorePatterns: a session kept busy - touched (read, or written again) a little more often than the idle limit asks
+// for - until well past the absolute limit, which alone must end it; and inside both limits it must stay
+func busyStorePatterns(r *Run, pairs [][2]time.Duration) {
+	toks, auths := tokPool(), authPool()
 	for _, kind := range []string{"mem", "redis"} {
 		for _, p := range pairs {
 			if p[0] == 0 {
@@ -183,29 +214,4 @@ func runC10(r *Run) {
 			}
 		}
 	}
-	n := 800
-	if r.thorough() {
-		n = 30000
-	}
-	for i := 0; i < n; i++ {
-		for _, kind := range []string{"mem", "redis"} {
-			p := pick(r.Rng, pairs)
-			sc := scenario{Kind: kind, Abs: p[0], Idle: p[1], Ops: randomStoreSeq(r, 5+r.Rng.Intn(40), ticks, false)}
-			runScenario(r, sc, func(storeOp) bool { return true })
-			if i < 2 {
-				r.Sample(sc)
-			}
-		}
-	}
-	redisFaultSweep(r, "[C10]", nil)
-	// handler level: a session whose TOKENS are refreshed at every request does not get a new lifetime
-	for _, store := range []string{"mem", "redis"} {
-		if r.unknownViolations() == 0 {
-			busySessionR(r, store, 300*time.Second, 100*time.Second, 60*time.Second, true)
-			busySessionR(r, store, 300*time.Second, 0, 60*time.Second, true)
-		}
-	}
-	systemLevelTimeouts(r)
-	r.Finish("store histories with (absolute, idle) in {0,3s,4s,10s,30s} pairs: directed write/wait/read/wait/read/write/wait/read patterns with waits on either side of every limit incl. the exact boundary and 1ns around it, plus random histories; memory store and Redis store (miniredis with the same virtual clock); " +
-		"judged by the Go reference (never honoured late; not dropped inside both limits, 1s allowance for Redis) and compared line by line with the Lean store models; the system-level part builds the stores through the real NewSessionStoreFactory(cfg).PreRun(); non-trivial = a read returned data, distinct by history")
 }
